@@ -170,6 +170,7 @@ class Server(object):
         raise NotImplementedError
 
     def _authenticate_and_serve_client(self, sock):
+        sock2 = sock
         try:
             if self.authenticator:
                 addrinfo = sock.getpeername()
@@ -180,6 +181,9 @@ class Server(object):
                     return
                 else:
                     self.logger.info("%s authenticated successfully", addrinfo)
+                    # the authenticator may hand back another socket object that has taken the
+                    # connection over (e.g. ssl): that is the one close() has to shut down
+                    self.clients.add(sock2)
             else:
                 credentials = None
                 sock2 = sock
@@ -195,6 +199,7 @@ class Server(object):
                 pass
             closing(sock)
             self.clients.discard(sock)
+            self.clients.discard(sock2)
 
     def _serve_client(self, sock, credentials):
         addrinfo = sock.getpeername()
